@@ -483,6 +483,8 @@ def gen_procedures(rng, tier, seed):
         case['situation'] = rng.choice(['live', 'live', 'unknown_handle', 'peer_vanishes'])
         # role of the commanding host on that link, and the peer controller's capability set (a random subset of its LE features)
         case['as_peripheral'] = rng.random() < 0.4
+        # the peer's host programs a new random address after the connection is up (privacy), then the peer disappears
+        case['peer_readdr'] = rng.random() < 0.4
         case['peer_feature_mask'] = rng.choice([None, None, rng.getrandbits(64), rng.getrandbits(64) & rng.getrandbits(64), 0])
     return case
 
@@ -526,6 +528,9 @@ def run_procedures(case):
                 else:
                     cc, cp = world.connect_le(0, 1, own_address_type=hci.OwnAddressType.PUBLIC if case['own_public'] else None)
                     handle = cc.handle
+        if case.get('peer_readdr') and not classic and handle != 0x0EFE:
+            sim.must(n1.host.send_command(hci.HCI_LE_Set_Random_Address_Command(random_address=hci.Address('D1:00:00:00:77:01', hci.Address.RANDOM_DEVICE_ADDRESS))), 'readdr')
+            sim.probe('peer_changed_its_random_address_after_connecting')
         mon = Monitor(sim, world)
         if proc in ('le_create_cis', 'sco_setup'):
             mon.proc.update(PROC_DIRECTED)
